@@ -220,7 +220,9 @@ class SimSocket(_real_socket):
                 if act[0] == 'short':
                     data = bytes(data[:max(1, min(len(data), act[1]))]) if len(data) else data
                 elif act[0] == 'err':
-                    if act[1] in FATAL:
+                    # ('err', errno) with a fatal errno kills the connection for good, as a real one does; ('err', errno, 'once') raises it for
+                    # this call only (a scripted outcome: "every script of send() outcomes" includes EPIPE followed by an accepting send)
+                    if act[1] in FATAL and not (len(act) > 2 and act[2] == 'once'):
                         self._die(act[1])
                     raise OSError(act[1], 'simulated send error')
         n = super().send(data, flags)
